@@ -26,6 +26,9 @@ CHECKS = {
  'C16': dict(technique='deterministic simulation: fault injection through the code\'s own inject_cb seam, event-history checks and refinement against a cut-circuit reference',
    text='The harness callback is monitor and fault injector: seeded fault plans overwrite signals in chosen lanes and cycles (c_prop and cycle(k)); the recorded event history is checked for exactly-once, dependency order, identity and view semantics, and per cycle and lane group the results and every value any callback saw must equal the callback-free simulation of the cut circuit in which each injected line is a fresh primary input. Untouched callbacks must leave s[1] and c bit-identical in all three logics.',
    ref='5.6', note='Oracle is the same simulator class without callback on a rebuilt cut circuit (no second multi-valued algebra); lanes are grouped by injection set; pure-Python fallback.'),
+ 'C09': dict(technique='deterministic simulation: stateful exploration of edit histories against a reference graph model, with restore (pickle/copy) faults in mid-history',
+   text='Seeded histories of 1-150 public edit operations (nodes, lines with implicit/explicit pins, removals, get_or_add_fork, port list edits, eliminate_1to1_forks, substitute with generated implementations, copy, pickle round trip after which the history continues on the restored object). After every step all clauses of the statement are evaluated on the real object (indices, name lookups, exact pin back-references by scanning all pin lists, gap-free fork outputs, statistics) and the graph must be isomorphic to the dict-based reference model.',
+   ref='5.7', note='Well-formed use only (acyclic, one driver per fork, explicit pins on free positions); substitute re-synchronises the model after the invariants passed; trailing None pin slots are not compared.'),
  'C13': dict(technique='deterministic simulation: capacity faults paired with unlimited runs, accumulation under seeded GPU thread orders and real-thread interleavings, capture read-out of recorded state',
    text='Overflow indicator: capacity-faulted run vs paired capacity-64 run, every output whose indicator is clear must carry exactly the unlimited waveform. Accumulation: abuf must equal the weighted rise/fall count of the waveform snapshots taken when each op finishes, cumulatively over reuse batches, on the CPU path, under seeded mock-GPU thread orders, under fine-grained interleaving (where a non-atomic update loses counts) and for the first k lanes. Capture summary: s[3..8], s[10] against what the stored output waveform encodes for capture times selected on/around actual transitions.',
    ref='5.5', note='sd=0; "unlimited" = 64 entries (cases where that overflows are skipped and counted); pure-Python fallback.'),
